@@ -287,15 +287,57 @@ def consume(model, use):
     return True
 
 
+CONSUMER_SECONDS = 20     # an ordinary consumer takes milliseconds to a few seconds
+
+
+class _ConsumerTimeout(Exception):
+    pass
+
+
+class _ConsumerTimeLimit:
+    """wall-clock limit for one consumer; SIGALRM is shared with the harness's own wall-clock limit, whose handler and remaining time
+    are put back (same device as harness/props/c04.py `time_limit`)"""
+
+    def __init__(self, seconds):
+        self.seconds = seconds
+
+    def __enter__(self):
+        import signal
+        import time as _t
+        self.signal, self.t0 = signal, _t.time()
+        self.usable = hasattr(signal, "SIGALRM")
+        if self.usable:
+            def fire(signum, frame):
+                raise _ConsumerTimeout()
+            self.remaining = signal.alarm(0)
+            self.old = signal.signal(signal.SIGALRM, fire)
+            signal.alarm(self.seconds)
+        return self
+
+    def __exit__(self, *exc):
+        if self.usable:
+            import time as _t
+            self.signal.alarm(0)
+            self.signal.signal(self.signal.SIGALRM, self.old)
+            if self.remaining:
+                self.signal.alarm(max(1, self.remaining - int(_t.time() - self.t0)))
+        return False
+
+
 def apply_uses(model, uses):
     """the use history: every consumer in turn; a consumer that refuses the object (raises) has still been handed it"""
     ran = 0
     for use in uses:
         kind = use[0] + (":" + use[4][0] if use[0] == "wrapper" and use[4] else "")
         try:
-            out = "ran" if consume(model, use) else "not_applicable"
+            with _ConsumerTimeLimit(CONSUMER_SECONDS):
+                out = "ran" if consume(model, use) else "not_applicable"
         except Infra:
             raise
+        except _ConsumerTimeout:
+            # a consumer that does not come back (seen: the geometric grid constructor's `while True` on a degenerate edge model) has
+            # still been handed the object; whether the consumer itself terminates is the subject of its own property (C13 / C04 / C15)
+            out = "raises:did_not_return"
         except Exception as e:
             out = "raises:" + type(e).__name__
         ran += out == "ran"
@@ -1375,9 +1417,12 @@ def chain_signature(model, gd, method=SamplingMethod.INVERSION):
 
 def chain_signature_or_error(model, gd):
     try:
-        return chain_signature(model, gd)
+        with _ConsumerTimeLimit(3 * CONSUMER_SECONDS):
+            return chain_signature(model, gd)
     except Infra:
         raise
+    except _ConsumerTimeout:
+        return "raises:did_not_return"
     except Exception as e:
         return "raises:" + type(e).__name__
 
